@@ -22,10 +22,17 @@ type FullL2 struct {
 	Fatal  []string
 	HStore *P2PStore[*types.SignedHeader]
 	DStore *P2PStore[*types.Data]
+	Sched  *Sched
 }
 
 // StartFullL2 must be called inside a bubble.
 func StartFullL2(p Params, env *Env, image map[string][]byte, hs *P2PStore[*types.SignedHeader], ds *P2PStore[*types.Data], onWrite func(int, Write) bool) (*FullL2, error) {
+	return StartFullL2Sched(p, env, image, hs, ds, onWrite, NewSched(nil))
+}
+
+// StartFullL2Sched runs the loops as threads of a cooperative scheduler: exactly one of them runs at a time and the
+// order is decided by sched.Choose (nil = canonical order, i.e. one deterministic interleaving).
+func StartFullL2Sched(p Params, env *Env, image map[string][]byte, hs *P2PStore[*types.SignedHeader], ds *P2PStore[*types.Data], onWrite func(int, Write) bool, sched *Sched) (*FullL2, error) {
 	p.BlockTime, p.DABlockTime = 1000*time.Hour, 1000*time.Hour
 	if hs == nil {
 		hs = &P2PStore[*types.SignedHeader]{}
@@ -33,19 +40,21 @@ func StartFullL2(p Params, env *Env, image map[string][]byte, hs *P2PStore[*type
 	if ds == nil {
 		ds = &P2PStore[*types.Data]{}
 	}
-	n, err := StartNode(p, env, image, NodeOpts{HStore: hs, DStore: ds, OnWrite: onWrite})
+	hs.Gate, ds.Gate = sched.Gate, sched.Gate
+	n, err := StartNode(p, env, image, NodeOpts{HStore: hs, DStore: ds, OnWrite: onWrite, Gate: sched.Gate})
 	if err != nil {
 		return nil, err
 	}
-	f := &FullL2{N: n, Env: env, P: p, ErrCh: make(chan error, 16), HStore: hs, DStore: ds}
+	n.M.VerifSetSendGate(func(ch string) { sched.Gate("send:" + ch) })
+	f := &FullL2{N: n, Env: env, P: p, ErrCh: make(chan error, 16), HStore: hs, DStore: ds, Sched: sched}
 	var ctx context.Context
 	ctx, f.cancel = context.WithCancel(context.Background())
-	go n.M.RetrieveLoop(ctx)
-	go n.M.HeaderStoreRetrieveLoop(ctx)
-	go n.M.DataStoreRetrieveLoop(ctx)
-	go n.M.SyncLoop(ctx, f.ErrCh)
-	go n.M.DAIncluderLoop(ctx, f.ErrCh)
-	synctest.Wait()
+	sched.Go("retrieve", func() { n.M.RetrieveLoop(ctx) })
+	sched.Go("p2p-headers", func() { n.M.HeaderStoreRetrieveLoop(ctx) })
+	sched.Go("p2p-data", func() { n.M.DataStoreRetrieveLoop(ctx) })
+	sched.Go("sync", func() { n.M.SyncLoop(ctx, f.ErrCh) })
+	sched.Go("includer", func() { n.M.DAIncluderLoop(ctx, f.ErrCh) })
+	sched.Drain()
 	return f, nil
 }
 
@@ -58,8 +67,14 @@ func signal(ch chan struct{}) {
 
 // Settle lets in-call retries (100 ms pauses) finish and waits for quiescence.
 func (f *FullL2) Settle() {
-	time.Sleep(3 * time.Second)
-	synctest.Wait()
+	f.Sched.Drain()
+	// in-call retries pause for 100 ms: let virtual time pass until nothing is left to do
+	for i := 0; i < 12; i++ {
+		time.Sleep(300 * time.Millisecond)
+		if f.Sched.Drain() == 0 && i >= 1 {
+			break
+		}
+	}
 	for {
 		select {
 		case err := <-f.ErrCh:
@@ -81,8 +96,13 @@ func (f *FullL2) TickP2P() {
 func (f *FullL2) TickIncluder() { signal(f.N.M.VerifDAIncluderCh()); f.Settle() }
 
 func (f *FullL2) Stop() {
+	// Go chooses at random between ctx.Done() and another ready case; a loop that wins one more iteration after the
+	// cancel is frozen at its next environment call so that it consumes no decision point.
 	f.cancel()
+	f.N.Fate.Kill()
+	f.Sched.Off()
 	synctest.Wait()
+	f.N.M.VerifClearSendGate()
 }
 
 // Digest renders everything the C03 differential oracle compares.
